@@ -11,6 +11,7 @@ import (
 	"net"
 	"sort"
 	"strings"
+	"time"
 
 	"github.com/coredhcp/coredhcp/plugins/allocators"
 	"github.com/coredhcp/coredhcp/plugins/allocators/bitmap"
@@ -25,7 +26,12 @@ func init() {
 	for _, id := range []string{"C04", "C05", "C06", "C07"} {
 		id := id
 		reg.Register(&reg.Check{ID: id, Level: "model_checking",
-			Run:    func(r *ev.Run) { run(r, id) },
+			Run: func(r *ev.Run) { describe(r); reg.Isolated(r, id, 3*time.Hour) },
+			Worker: func(a []string) int {
+				r := ev.New(id, reg.Tier, "model_checking")
+				run(r, id)
+				return reg.WorkerExit(r)
+			},
 			Replay: func(r *ev.Run, c json.RawMessage) { replayCase(r, id, c) }})
 	}
 }
@@ -542,11 +548,14 @@ func graphPools(thorough bool) []Pool {
 	return ps
 }
 
+func describe(r *ev.Run) {
+	r.Rule("E1: BFS to fixpoint over the real allocator for each pool; ops = Allocate(no hint | hint on every block in several forms | hints outside) + Free (outstanding blocks; for C06 also every non-outstanding block, sub-prefixes, and prefixes 1,2,N,N+1,2^16 blocks below/above the pool). State key = bitmap bits (hook) + ghost set of outstanding blocks. Reference geometry from math/big. Then linear sweeps (fill to exhaustion, free one, refill) over pool geometries incl. word-boundary sizes. Class = op kind + outcome.")
+	r.Assume("pool orders <= 16 blocks in the graphs, <= 257 blocks in sweeps; super-prefix frees and mismatched IP/mask widths are outside the stated domain of Free; the exploration runs in a worker process so that a fatal error of the allocator is reported, not suffered")
+}
+
 func run(r *ev.Run, id string) {
 	foreign := id == "C06"
 	rich := id == "C05" || id == "C07" || id == "C06"
-	r.Rule("E1: BFS to fixpoint over the real allocator for each pool; ops = Allocate(no hint | hint on every block in several forms | hints outside) + Free (outstanding blocks; for C06 also every non-outstanding block, sub-prefixes, and prefixes 1,2,N,N+1,2^16 blocks below/above the pool). State key = bitmap bits (hook) + ghost set of outstanding blocks. Reference geometry from math/big. Then linear sweeps (fill to exhaustion, free one, refill) over pool geometries incl. word-boundary sizes. Class = op kind + outcome.")
-	r.Assume("pool orders <= 16 blocks in the graphs, <= 257 blocks in sweeps; super-prefix frees and mismatched IP/mask widths are outside the stated domain of Free")
 	for _, p := range graphPools(!r.Quick()) {
 		p := p
 		res := explore.Explore(r, explore.Config[Op]{
